@@ -166,6 +166,18 @@ fn gen_world(rng: &mut Rng, flavor: Flavor, via_text: bool) -> World {
 		if !in_m[i] { continue; }
 		let mut dst = cps_str(*rng.pick(&DST_PKGS[..])); dst.extend(cps_str(*rng.pick(&DST_SIMPLE[..if flavor == Flavor::Weird { 12 } else { 10 }])));
 		if rng.chance(1, 8) { dst = cps_str(*rng.pick(&DST_PKGS[..])); dst.extend(cps_str(*rng.pick(&NUM_DST[..]))); }
+		if rng.chance(1, 6) {
+			// target names that contain `$` but no `__` (mappings of a jar that was nested before, or plain odd names): the
+			// translated inner name is the whole last path segment, `$` included; every second one shares its part after the
+			// last `$` with an earlier target name, so that cutting at `$` makes two inner names collide
+			let tail: S = match dsts.iter().rev().find(|d| d.contains(&('$' as u32))) {
+				Some(d) if rng.chance(1, 2) => { let p = d.iter().rposition(|&c| c == '$' as u32).unwrap(); d[p + 1..].to_vec() }
+				_ => cps_str(*rng.pick(&["Thing", "C_5", "1", "Local", "Ⅷ"][..])),
+			};
+			dst = cps_str(*rng.pick(&DST_PKGS[..])); dst.extend(cps_str(*rng.pick(&["Things", "Stuff", "Host", "C_3", "Ü"][..])));
+			if rng.chance(1, 4) { dst.extend(cps_str("$Mid")); }
+			dst.push('$' as u32); dst.extend(tail);
+		}
 		if rng.chance(1, 4) {
 			// target names that already use nesting: Encl__Inner (also chains, also next to a package)
 			let mut e = if !dsts.is_empty() && rng.chance(1, 2) { rng.pick(&dsts[..]).clone() } else { dst.clone() };
@@ -205,9 +217,11 @@ fn gen_world(rng: &mut Rng, flavor: Flavor, via_text: bool) -> World {
 	for i in 0..u.len() {
 		if !rng.chance(3, 5) { continue; }
 		let cls = u[i].clone();
-		let encl = if let (Some(p), true) = (prev_in_table, rng.chance(1, 2)) { u[p].clone() }   // lengthen the chain
+		let encl = if let (Some(prev), true) = (t.last(), rng.chance(1, 5)) { prev.encl.clone() }   // a sibling: same enclosing class
+			else if let (Some(p), true) = (prev_in_table, rng.chance(1, 2)) { u[p].clone() }   // lengthen the chain
 			else if i > 0 && rng.chance(2, 3) { u[rng.below(i)].clone() }
 			else { rng.pick(&outside[..]).clone() };
+		let encl = if encl == cls { rng.pick(&outside[..]).clone() } else { encl };
 		// the name the class would derive its inner name from
 		let tail: S = match cls.iter().rposition(|&c| c == '$' as u32 || c == '/' as u32) { Some(p) => cls[p + 1..].to_vec(), None => cls.clone() };
 		let tail_alpha: S = { let k = tail.iter().take_while(|&&c| (48..=57).contains(&c)).count(); if k == tail.len() { cps_str("Loc") } else { tail[k..].to_vec() } };
@@ -366,6 +380,35 @@ fn fixed_worlds() -> Vec<(&'static str, World)> {
 	// a TARGET name that is the name of a listed class: undo looks it up in the table and turns `$` into `__`
 	v.push(("fixed-undo-target-is-listed", World { m: mk_mappings(&[("u", "Host$Inner", &[("f", "LHost$Inner;")], &[]), ("Host$Inner", "named/HI", &[], &[]), ("Host", "named/Host", &[], &[])]), flavor: Flavor::Valid, via_text: false, big: false,
 		j: vec![mk_class("u", &[]), mk_class("Host$Inner", &[]), mk_class("Host", &[])], t: vec![mk_nest(INNER, "Host$Inner", "Host", None, "Inner", 1)] }));
+	// "exactly those listed classes": Foo is nested into Bar; the UNLISTED classes Foo$Helper, Foo$1 and Foo$Helper$Deep
+	// (names that extend a listed name with `$`) keep their names in the jar, in the mappings and in every descriptor
+	for via_text in [false, true] {
+		v.push(("fixed-dollar-child", World { flavor: Flavor::Valid, via_text, big: false,
+			m: mk_mappings(&[("Foo", "pkg/Foo", &[("h", "LFoo$Helper;")], &[("m", "(LFoo;LFoo$1;)LFoo$Helper$Deep;")]), ("Bar", "pkg/Bar", &[], &[]), ("Foo$Helper", "pkg/FooHelper", &[("f", "LFoo;")], &[("k", "([LFoo$Helper;)V")]), ("Foo$1", "pkg/Foo1", &[], &[]), ("Foo$Helper$Deep", "pkg/Deep", &[], &[]), ("User", "pkg/User", &[("a", "LFoo$1;"), ("b", "[[LFoo;")], &[])]),
+			j: vec![mk_class("Foo", &[("m", "(LFoo;LFoo$1;)LFoo$Helper$Deep;")]), mk_class("Bar", &[]), mk_class("Foo$Helper", &[("k", "([LFoo$Helper;)V")]), mk_class("Foo$1", &[]), mk_class("Foo$Helper$Deep", &[]), mk_class("User", &[("u", "(LFoo$Helper;)LFoo;")])],
+			t: vec![mk_nest(INNER, "Foo", "Bar", None, "Foo", 1)] }));
+		// the same with a chain: Bar itself is nested into Baz, the unlisted Bar$Foo (!) is a different class than the image of Foo
+		v.push(("fixed-dollar-child", World { flavor: Flavor::Valid, via_text, big: false,
+			m: mk_mappings(&[("Foo", "pkg/Foo", &[], &[("m", "(LBar$X;)LFoo$X;")]), ("Bar", "pkg/Bar", &[("g", "LBar$X;")], &[]), ("Baz", "pkg/Baz", &[], &[]), ("Bar$X", "pkg/BarX", &[], &[]), ("Foo$X", "pkg/FooX", &[("f", "LBar;")], &[])]),
+			j: vec![mk_class("Foo", &[("m", "(LBar$X;)LFoo$X;")]), mk_class("Bar", &[]), mk_class("Baz", &[]), mk_class("Bar$X", &[]), mk_class("Foo$X", &[])],
+			t: vec![mk_nest(INNER, "Foo", "Bar", None, "Foo", 1), mk_nest(INNER, "Bar", "Baz", None, "Bar", 9)] }));
+	}
+	// target names with `$` and without `__`: the translated inner name is the whole last path segment (Things$Thing,
+	// 1Things$Local), an anonymous class mapped to Host$C_12 keeps its number; net/Things$Thing and net/Stuff$Thing sit in
+	// the same enclosing class and must stay apart
+	for via_text in [false, true] {
+		v.push(("fixed-dollar-target", World { flavor: Flavor::Valid, via_text, big: false,
+			m: mk_mappings(&[("e", "net/Encl", &[("f", "Ls1;"), ("g", "Ls2;")], &[("run", "()V")]), ("s1", "net/Things$Thing", &[], &[]), ("s2", "net/Stuff$Thing", &[], &[("m", "(Ls1;)Ls3;")]), ("s3", "net/Things$Local", &[], &[]), ("s4", "net/Host$C_12", &[], &[]), ("s5", "Top$C_7", &[], &[]), ("s6", "net/A$B$Thing", &[], &[])]),
+			j: vec![mk_class("e", &[("run", "()V")]), mk_class("s1", &[]), mk_class("s2", &[("m", "(Ls1;)Ls3;")]), mk_class("s3", &[]), mk_class("s4", &[]), mk_class("s5", &[]), mk_class("s6", &[])],
+			t: vec![mk_nest(INNER, "s1", "e", None, "s1", 1), mk_nest(INNER, "s2", "e", None, "s2", 1), mk_nest(LOCAL, "s3", "e", Some(("run", "()V")), "1s3", 0),
+				mk_nest(ANON, "s4", "e", Some(("run", "()V")), "3", 0), mk_nest(ANON, "s5", "e", None, "4", 0), mk_nest(INNER, "s6", "s1", None, "s6", 8)] }));
+	}
+	// two listed classes of different packages with the same simple target name in one enclosing class (the translated
+	// inner names are equal: Thing), and a custom inner name beside a derived one
+	v.push(("fixed-same-simple-name", World { flavor: Flavor::Valid, via_text: false, big: false,
+		m: mk_mappings(&[("e", "net/Encl", &[], &[]), ("p1", "a/Thing", &[("f", "Lp2;")], &[]), ("p2", "b/Thing", &[("f", "Lp1;")], &[]), ("p3", "c/Other", &[], &[])]),
+		j: vec![mk_class("e", &[]), mk_class("p1", &[]), mk_class("p2", &[]), mk_class("p3", &[])],
+		t: vec![mk_nest(INNER, "p1", "e", None, "p1", 1), mk_nest(INNER, "p2", "e", None, "p2", 1), mk_nest(INNER, "p3", "e", None, "Custom", 1)] }));
 	// an anonymous class mapped to C_<fullwidth digit>: construct_inner_name_from_anonymous_number must refuse
 	v.push(("fixed-numerics", World { m: mk_mappings(&[("a", "pkg/Outer", &[], &[]), ("g", "pkg/C_７", &[], &[])]), j: vec![mk_class("a", &[]), mk_class("g", &[])], flavor: Flavor::Valid, via_text: true, big: false,
 		t: vec![mk_nest(ANON, "g", "a", None, "7", 0)] }));
@@ -383,8 +426,8 @@ fn gen_insns(rng: &mut Rng, u: &[S]) -> Vec<JInsn> {
 			1 => { v.push(JInsn::AConstNull); v.push(JInsn::CheckCast(if rng.chance(1, 3) { let mut a = cps_str("[L"); a.extend(c); a.push(';' as u32); a } else { c })); v.push(JInsn::Pop); }
 			2 => { v.push(JInsn::AConstNull); v.push(JInsn::InstanceOf(c)); v.push(JInsn::Pop); }
 			3 => { v.push(JInsn::LdcClass(c)); v.push(JInsn::Pop); }
-			4 => { let d = gen_field_desc(rng, u); v.push(JInsn::GetStatic(c, cps_str("f"), d)); v.push(JInsn::Pop); }
-			5 => { let d = gen_field_desc(rng, u); v.push(JInsn::AConstNull); v.push(JInsn::PutStatic(c, cps_str("g"), d)); }
+			4 => { let d = gen_field_desc(rng, u); if rng.chance(1, 2) { v.push(JInsn::GetStatic(c, cps_str("f"), d)); } else { v.push(JInsn::AConstNull); v.push(JInsn::GetField(c, cps_str("i"), d)); } v.push(JInsn::Pop); }
+			5 => { let d = gen_field_desc(rng, u); v.push(JInsn::AConstNull); if rng.chance(1, 2) { v.push(JInsn::PutStatic(c, cps_str("g"), d)); } else { v.push(JInsn::AConstNull); v.push(JInsn::PutField(c, cps_str("h"), d)); } }
 			6 => { v.push(JInsn::InvokeStatic(c, cps_str("s"), { let mut d = cps_str("()"); d.extend(gen_field_desc(rng, u)); d })); v.push(JInsn::Pop); }
 			7 => { v.push(JInsn::AConstNull); v.push(JInsn::InvokeVirtual(c, cps_str("v"), cps_str("()V"))); }
 			_ => { v.push(JInsn::AConstNull); v.push(JInsn::ANewArray(c)); v.push(JInsn::Pop); }
@@ -463,6 +506,19 @@ fn through_world(r: &mut Report, w: &World, n: &Nests<NA>, stream: &str) -> anyh
 	else if depth_max >= 2 && listed_before_enclosing(t) > 0 { r.count("table_lists_a_nest_before_the_nest_of_its_enclosing_class(depth>=2)"); }
 	if t.iter().any(|n| n.inner.iter().any(|&c| c > 127 && char::from_u32(c).map_or(false, char::is_numeric))) { r.count("table_inner_name_with_non_ascii_numeric"); }
 	if m.classes.iter().any(|c| c.names[1].as_ref().map_or(false, |d| d.windows(2).any(|p| p == ['C' as u32, '_' as u32]) && d.iter().any(|&c| c > 127 && char::from_u32(c).map_or(false, char::is_numeric)))) { r.count("mappings_target_C_<non_ascii_numeric>"); }
+	{
+		// round 5: the shapes two neighbouring helpers decide (ARemapper::map_class, ObjClassNameSlice::get_simple_name)
+		let listed: Vec<&S> = t.iter().map(|n| &n.class).collect();
+		let is_child = |c: &S| !listed.contains(&c) && listed.iter().any(|l| c.len() > l.len() + 1 && c.starts_with(l) && c[l.len()] == '$' as u32);
+		if m.classes.iter().any(|c| c.names[0].as_ref().map_or(false, |s| is_child(s))) || source_classes(m).iter().any(|c| is_child(c)) { r.count("unlisted_class_named_<listed>$x(in mappings or a descriptor)"); }
+		let dollar_dst = |d: &S| d.contains(&('$' as u32)) && !d.windows(2).any(|p| p == ['_' as u32, '_' as u32]);
+		let dst_of = |c: &S| m.classes.iter().rev().find(|k| k.names[0].as_ref() == Some(c)).and_then(|k| k.names[1].clone());
+		let dd: Vec<(S, S)> = t.iter().filter_map(|n| dst_of(&n.class).filter(|d| dollar_dst(d)).map(|d| (n.encl.clone(), d))).collect();
+		if !dd.is_empty() { r.count("listed_class_with_target_name_containing_$_and_no___"); }
+		let tail = |d: &S| { let p = d.iter().rposition(|&c| c == '$' as u32).unwrap_or(0); d[p..].to_vec() };
+		if dd.iter().enumerate().any(|(i, a)| dd.iter().skip(i + 1).any(|b| a.0 == b.0 && a.1 != b.1 && tail(&a.1) == tail(&b.1))) { r.count("siblings_whose_target_names_share_the_part_after_the_last_$"); }
+		if t.iter().enumerate().any(|(i, a)| t.iter().skip(i + 1).any(|b| a.encl == b.encl)) { r.count("table_with_siblings(one enclosing class)"); }
+	}
 
 	// ---- remap_nests
 	let mut collisions = 0;
@@ -690,6 +746,15 @@ fn gen_text(rng: &mut Rng, w: &World, malformed: bool) -> S {
 	let crlf = rng.chance(1, 5);
 	let mut lines: Vec<S> = w.t.iter().filter(|n| !n.inner.is_empty()).map(|n| line_of(n, rng.below(4) as u8)).collect();
 	if rng.chance(1, 4) && !lines.is_empty() { let l = rng.pick(&lines[..]).clone(); lines.push(l); }   // a class listed twice
+	if malformed && rng.chance(1, 3) && w.t.iter().any(|n| !n.inner.is_empty()) {
+		// a class listed twice with DIFFERENT content: the later line replaces the nest, at the position of the first
+		let ns: Vec<&MNest> = w.t.iter().filter(|n| !n.inner.is_empty()).collect();
+		let mut n2 = (*rng.pick(&ns[..])).clone();
+		n2.encl = cps_str("dup/Encl"); n2.inner = cps_str(*rng.pick(&["Dup", "7Dup", "77"][..])); n2.meth = None; n2.access = 0x0010;
+		let at = rng.below(lines.len() + 1);
+		lines.insert(at, line_of(&n2, 1));
+		if rng.chance(1, 2) { return join_lines(rng, &lines, crlf); }
+	}
 	if malformed && !lines.is_empty() {
 		let i = rng.below(lines.len());
 		let l = &mut lines[i];
@@ -704,6 +769,11 @@ fn gen_text(rng: &mut Rng, w: &World, malformed: bool) -> S {
 			_ => { *l = cps_str("A\tB\t\t\tx/\t0"); }                              // invalid inner name
 		}
 	}
+	text.extend(join_lines(rng, &lines, crlf));
+	text
+}
+fn join_lines(rng: &mut Rng, lines: &[S], crlf: bool) -> S {
+	let mut text: S = vec![];
 	for (i, l) in lines.iter().enumerate() {
 		text.extend(l);
 		if i + 1 < lines.len() || rng.chance(3, 4) { if crlf { text.push(13); } text.push(10); }
@@ -960,7 +1030,7 @@ pub fn run(ctx: &Ctx) -> anyhow::Result<Report> {
 	let mut r = Report::new("C14", "C14.Run");
 	let mut rng = Rng::new(ctx.seed);
 	r.shard_size = 200;
-	r.rule = "worlds = (mapping set with 2 namespaces, nests table, jar) over a universe of 2..8 source classes (packages, `$`-nested names, unicode, numeric characters that are not ASCII digits): chains of depth 1..5, inner/local/anonymous nests with derived and custom inner names, inner names and C_<n> target names with Arabic-Indic / fullwidth / superscript / circled / Roman numerals, nests for classes that are in no mapping or no jar, target names in Calamus form C_<n> and already nested Encl__Inner; tables are shuffled and in one world of four listed inner-most first (every nest before the nest of its enclosing class); one world of three reaches the implementation through the TEXT reader (Nests::read of the table's text) and the kinds it assigns are compared with an independent ASCII-only classification; every world goes through remap_nests, apply_nests_to_mappings, undo_nests_to_mappings (on the applied and on the original mappings) and nest_jar and is judged by the independent reference; separate streams violate one hypothesis each: classes without target name, a translation that is not injective, malformed descriptors / inner names / target names, CYCLIC tables and acyclic tables with a cyclic image (Err expected, compared with the model's Err); fixed worlds in every run: chains listed inner-most first, the cyclic-image witness, the order-dependent creation of a listed class, non-ASCII numerics through the reader; rich jars (corpus classes and gen_class output: signatures, annotations, local variable tables, stack map frames, catch types, invokedynamic, method handles/types, NestHost/NestMembers/PermittedSubclasses/Record, multianewarray, pre-existing EnclosingMethod) are nested and every reference position of every output class is compared with the specification of reference positions (C07's spec_remap) applied to the input; the nests text format is round-tripped through Nests::read together with malformed lines (wrong field counts, empty class / enclosing class / inner name, invalid names, access flags out of range). Round 4: every world is written down (crumb) before it is handed to the implementation; MyRemapper::new alone (undo on an empty mapping set) is compared with the literal depth-counter transcription (CLiteral); single chains whose depth equals the table size (1..48 with correspondence, 300 with jar and 1500 oracle-only) in three table orders, each also closed into a cycle; the anonymous rule on 44 boundary inner names (0, 00, 01, +1, -1, -0, +, -, 2^31-1, 2^31, 2^32-1, 2^32, leading zeros, empty, white space, `_`, other scripts' digits) and on random numbers around the i32/u32 boundaries, each through nest_jar in both modes (CAnon); enclosing methods without a mapping (`<init>`, `<clinit>`, lambda bodies, accessors) whose descriptors mention mapped classes; target names that are names of listed classes (undo's `$` -> `__`); a probe class casts to object names, array names of 1 and 3 dimensions, primitive arrays and unlisted classes and the operands are read back after nest_jar(remap) (CAnyClass); a class entry not named <class>.class. A world is non-trivial when apply renamed at least one class; distinct by (table, mappings).".into();
+	r.rule = "worlds = (mapping set with 2 namespaces, nests table, jar) over a universe of 2..8 source classes (packages, `$`-nested names, unicode, numeric characters that are not ASCII digits): chains of depth 1..5, inner/local/anonymous nests with derived and custom inner names, inner names and C_<n> target names with Arabic-Indic / fullwidth / superscript / circled / Roman numerals, nests for classes that are in no mapping or no jar, target names in Calamus form C_<n> and already nested Encl__Inner; tables are shuffled and in one world of four listed inner-most first (every nest before the nest of its enclosing class); one world of three reaches the implementation through the TEXT reader (Nests::read of the table's text) and the kinds it assigns are compared with an independent ASCII-only classification; every world goes through remap_nests, apply_nests_to_mappings, undo_nests_to_mappings (on the applied and on the original mappings) and nest_jar and is judged by the independent reference; separate streams violate one hypothesis each: classes without target name, a translation that is not injective, malformed descriptors / inner names / target names, CYCLIC tables and acyclic tables with a cyclic image (Err expected, compared with the model's Err); fixed worlds in every run: chains listed inner-most first, the cyclic-image witness, the order-dependent creation of a listed class, non-ASCII numerics through the reader; rich jars (corpus classes and gen_class output: signatures, annotations, local variable tables, stack map frames, catch types, invokedynamic, method handles/types, NestHost/NestMembers/PermittedSubclasses/Record, multianewarray, pre-existing EnclosingMethod) are nested and every reference position of every output class is compared with the specification of reference positions (C07's spec_remap) applied to the input; the nests text format is round-tripped through Nests::read together with malformed lines (wrong field counts, empty class / enclosing class / inner name, invalid names, access flags out of range). Round 4: every world is written down (crumb) before it is handed to the implementation; MyRemapper::new alone (undo on an empty mapping set) is compared with the literal depth-counter transcription (CLiteral); single chains whose depth equals the table size (1..48 with correspondence, 300 with jar and 1500 oracle-only) in three table orders, each also closed into a cycle; the anonymous rule on 44 boundary inner names (0, 00, 01, +1, -1, -0, +, -, 2^31-1, 2^31, 2^32-1, 2^32, leading zeros, empty, white space, `_`, other scripts' digits) and on random numbers around the i32/u32 boundaries, each through nest_jar in both modes (CAnon); enclosing methods without a mapping (`<init>`, `<clinit>`, lambda bodies, accessors) whose descriptors mention mapped classes; target names that are names of listed classes (undo's `$` -> `__`); a probe class casts to object names, array names of 1 and 3 dimensions, primitive arrays and unlisted classes and the operands are read back after nest_jar(remap) (CAnyClass); a class entry not named <class>.class. Round 5: unlisted classes whose names extend a listed name with `$` (Foo$Helper, Foo$1, Foo$Helper$Deep beside the listed Foo; Bar$X beside a listed Bar that is itself nested) in jar, mappings and descriptors (fixed-dollar-child); target names that contain `$` and no `__` (one generated target name in six; every second of those shares its part after the last `$` with an earlier one) and siblings in one enclosing class, so that an inner name cut at `$` collides (fixed-dollar-target: net/Things$Thing and net/Stuff$Thing in one class, 1Things$Local, an anonymous class mapped to Host$C_12); two classes of different packages with one simple target name (fixed-same-simple-name); nests texts that list a class twice with different content. A world is non-trivial when apply renamed at least one class; distinct by (table, mappings).".into();
 
 	let survived = cycle_probe(&mut r, ctx);
 
@@ -1047,6 +1117,7 @@ pub fn run(ctx: &Ctx) -> anyhow::Result<Report> {
 	rich::run_rich(&mut r, &mut rng, if ctx.thorough { 500 } else { 48 });
 	// fixed texts
 	for s in ["", "\n", "A\tB\t\t\tC\t1", "A\tB\t\t\tC\t1\n\n", "A\tB\t\t\tC\t1\r", "A\tB\t\t\tC\t1\r\n", "A\tB\t\t\tC\t1\r\r\n", "\r\n", "\r", "A\tB\t\t\tC\t1\nX\tB\t\t\t2\t2\r", "A\tB\tm\t()V\t1C\t0x0019\r\nA$1\tA\tm\t\t1\t0b1\r\n", "A\tB\t\t()V\t12\t+7", "A\tB\tm\tnot a descriptor\tC\t0", "a/b/C\ta/b/D\t<init>\t(La/b/C;)V\t1\t0", "[A\tB\t\t\tC\t0", "A\tB\t\t\tC\t٣", "A\t\t\t\tC\t0", "A\tB\t\t\t\t0", "\tB\t\t\tC\t0", "A\tB\t\t\t+1\t0", "A\tB\t\t\t00\t0", "A\tB\t\t\t2147483648\t0", "A\tB\t\t\t-1\t0",
+		"A\tB\t\t\tC\t1\nX\tY\t\t\tZ\t0\nA\tD\tm\t()V\t1E\t2\n", "A\tB\t\t\t7\t1\nA\tB\t\t\tSeven\t1\nA\tB\t\t\t7\t0x10",
 		"c\ta\t\t\t٤٢\t1", "d\ta\tm\t()V\t1٣\t0", "e\ta\t\t\t٣D\t0", "f\ta\t\t\t１２\t0", "g\ta\t\t\t²\t0", "h\ta\tm\t()V\t7Ⅷ\t0"] {
 		through_read(&mut r, &cps_str(s), "read-fixed", None);
 	}
